@@ -8,9 +8,12 @@ EXTENDS Controller
 
 VARIABLES
   touched,   \* history: a third party wrote the fan's PWM since the last cycle
-  zeros      \* history: consecutive RPM polls that read 0 since the request last changed
+  zeros,     \* history: consecutive RPM polls that read 0 since the request last changed
+  ccv,       \* history: curve value of the latest cycle
+  kc,        \* history: consecutive cycles with that same curve value (capped), 0 after a raise/error
+  prevReq    \* history: the request before the latest cycle
 
-pvars == <<cvars, touched, zeros>>
+pvars == <<cvars, touched, zeros, ccv, kc, prevReq>>
 
 IsCycleOk == out.ev = "Cycle" /\ ~out.err
 \* trace validation concatenates traces: a step into an "Init" state starts a new behaviour
@@ -63,6 +66,39 @@ C10_PushedOrReported ==
 C10_ErrorOnlyAtMax ==
   [][Reset \/ (status' = "ControlError" /\ status = "Regulating" => last # Nil /\ last >= cfg.mx)]_pvars
 
+\* ---- C04 ----
+\* settle bound K(alg): a number of cycles that depends on the algorithm's settings only.
+\* PID (default gains): measured on the exhaustive model MC_C04 per tick period.
+KPidOf(dt) == IF dt <= 50 THEN 2500 ELSE 1200
+KOf(alg) == CASE alg.t = "direct" -> 1
+              [] alg.t = "rate" -> (P + alg.m - 1) \div alg.m + 1
+              [] alg.t = "pid" -> KPidOf(alg.dt)
+              [] OTHER -> 1000000
+KCapOf(alg) == IF alg.t = "any" THEN 0 ELSE KOf(alg) + 3
+\* steady value: what the direct algorithm requests for the curve value
+DirectOf(cv) == Rescale(Clamp(cv, 0, P), cfg.gmin + offset, cfg.mx)
+C04_Applies == cfg.alg.t # "any" /\ IsCycleOk /\ prevReq # Nil /\ kc > KOf(cfg.alg)
+\* (i) settled after K cycles of constant curve value ...
+C04_Settles == C04_Applies => out.req = prevReq
+\* (ii) ... at the steady value of the direct algorithm (default PID: within one PWM step)
+C04_SteadyValue ==
+  C04_Applies => IF cfg.alg.t = "pid" THEN Abs(out.req - DirectOf(ccv)) <= 1
+                 ELSE out.req \in RescaleSet(Clamp(ccv, 0, P), cfg.gmin + offset, cfg.mx)
+\* (iii) rate limited: consecutive requests differ by at most the limit ...
+C04_RateStep ==
+  [][Reset \/ (cfg.alg.t = "rate" /\ out'.ev = "Cycle" /\ ~out'.err /\ last # Nil /\ offset' = offset
+                 /\ loop.y # Nil
+                => Abs(out'.req - last) <= cfg.alg.m)]_pvars
+\* ... and move monotonically toward the steady value while the curve value stays the same
+C04_RateMonotone ==
+  [][Reset \/ (cfg.alg.t = "rate" /\ out'.ev = "Cycle" /\ ~out'.err /\ last # Nil /\ offset' = offset
+                 /\ loop.y # Nil /\ out'.cv = ccv /\ kc >= 1
+                => LET d == DirectOf(ccv) IN
+                   /\ (last <= d => out'.req >= last /\ out'.req <= d)
+                   /\ (last >= d - 1 => out'.req <= Max2(last, d) /\ out'.req >= d - 1))]_pvars
+\* (iv) no wind-up: the PID integral stays bounded whatever the history (PWM*ms)
+C04_NoWindup == cfg.alg.t = "pid" => Abs(loop.integ) <= 4000000
+
 \* bounded response: with the request unchanged and the fan reporting 0 RPM, the request is
 \* raised (or the stall reported) after at most StallBound polls.  The exponential average of
 \* window n decays from A to below 1 within n*ln(A) polls; 12n+2 covers A up to 160000 RPM.
@@ -79,4 +115,13 @@ HRpm(r) == /\ touched' = touched
            /\ zeros' = IF r = 0 THEN zeros + 1 ELSE 0
 HPoke(p) == /\ touched' = (touched \/ p # pwm)
             /\ zeros' = zeros
+
+\* C04 history; H4Cycle after the action itself, H4Keep for every other action
+H4Cycle == /\ ccv' = out'.cv
+           /\ prevReq' = last
+           /\ kc' = IF out'.err \/ out'.raised THEN 0
+                   ELSE IF out'.cv # ccv THEN 1
+                   ELSE Min2(kc + 1, KCapOf(cfg.alg))
+H4Keep == UNCHANGED <<ccv, kc, prevReq>>
+H4Init == ccv = Nil /\ kc = 0 /\ prevReq = Nil
 ==============================================================================
